@@ -66,6 +66,13 @@ def run(ctx):
                           "LogValue RuntimePrefixesToFilter; recovery.go: Recovery; log.go: Log LogContext LogTo LogContextTo "
                           "LogWithLevel LogAttrs LogAttrsContext LogAttrsTo LogAttrsContextTo LogAttrsWithLevel StackTraceKey "
                           "stackValue.StackError/LogValue — all called",
+        "typed-nil kinds (ind4-c11-b)": "foreign error types of every kind the library's guard distinguishes: typed nils of "
+                                        "pointer, slice (own type and go/scanner.ErrorList), map, func, chan; non-nil "
+                                        "values of the same types (zero-length slice, empty map); struct/string/int error "
+                                        "types with zero values — through Append (accumulator and every argument position), "
+                                        "Wrap, WrapTyped, NewWithCause(f), Log*, Recovery; the expectation is the harness's "
+                                        "own type switch and the model's single foreignNil notion; interface-in-interface "
+                                        "and unsafe.Pointer cannot reach the guard through an error value",
         "4 callback outcomes": "Recovery with panic(string, empty string, error, sentinel, custom error, *Error, int, struct, "
                                "typed-nil *Error, typed-nil foreign pointer, nil, nil-map write, nil dereference, index out "
                                "of range), nil handler, panicking handler, no panic; slog handler that fails, disabled "
